@@ -4082,3 +4082,51 @@ func rulePutOnce(prog *Program, rep *Report, floor int, rels ...string) {
 	rep.Rules = append(rep.Rules, "D-putonce: no function calls pool.Put(x) while a deferred pool.Put(x) of the same instance is pending ("+strings.Join(rels, ", ")+")")
 	runSynRule(prog, rep, "D-putonce", rels, matchPutOnce, fixturePutOnce, 1, floor)
 }
+
+// ---------------------------------------------------------------- E-mustcompile
+
+// matchMustCompile: regexp.MustCompile panics on a pattern that does not compile; with a pattern that is not a
+// constant (a string taken from the script or from the data) the panic is an input-dependent one.
+func matchMustCompile(files []*ast.File, info *types.Info) (sites []synSite, examined int) {
+	for _, f := range files {
+		ast.Inspect(f, func(n ast.Node) bool {
+			call, ok := n.(*ast.CallExpr)
+			if !ok || len(call.Args) != 1 {
+				return true
+			}
+			sel, ok := call.Fun.(*ast.SelectorExpr)
+			if !ok {
+				return true
+			}
+			fn, ok := info.Uses[sel.Sel].(*types.Func)
+			if !ok || fn.Pkg() == nil || fn.Pkg().Path() != "regexp" || !strings.HasPrefix(fn.Name(), "MustCompile") {
+				return true
+			}
+			examined++
+			if tv, ok := info.Types[call.Args[0]]; ok && tv.Value != nil {
+				return true
+			}
+			name := enclosingFuncName(f, call.Pos())
+			sites = append(sites, synSite{pos: call.Pos(), file: f, key: fmt.Sprintf("%s:mustcompile:%s", name, types.ExprString(call.Args[0])),
+				msg: fmt.Sprintf("%s compiles the non-constant pattern %s with regexp.%s: a pattern that does not compile panics", name, types.ExprString(call.Args[0]), fn.Name())})
+			return true
+		})
+	}
+	return
+}
+
+const fixtureMustCompile = `package fixture
+
+import "regexp"
+
+var fixed = regexp.MustCompile("^[a-z]+$")
+
+func match(pat, s string) bool {
+	return regexp.MustCompile(pat).MatchString(s)
+}
+`
+
+func ruleMustCompile(prog *Program, rep *Report, rels ...string) {
+	rep.Rules = append(rep.Rules, "E-mustcompile: regexp.MustCompile is called with constant patterns only ("+strings.Join(rels, ", ")+")")
+	runSynRule(prog, rep, "E-mustcompile", rels, matchMustCompile, fixtureMustCompile, 1, 0)
+}
